@@ -1,7 +1,75 @@
-(** C10 - symbols resolve by the documented binding rules or the build fails (examples; theorems follow). *)
+(** C10 - symbols resolve by the documented binding rules or the build fails.
+    Property theorems only; proofs are in Proofs/SymProofs.v (and Proofs/EncProofs.v for aliases). *)
 From Coq Require Import List ZArith NArith String.
 Import ListNotations.
-Require Import AvraV.Model.Base AvraV.Model.Ast AvraV.Model.Passes.
+Require Import AvraV.Model.Base AvraV.Model.Ast AvraV.Model.Device AvraV.Model.Eval AvraV.Model.Encode.
+Require Import AvraV.Model.Parse AvraV.Model.Passes AvraV.Spec.Isa AvraV.Proofs.EncCheck AvraV.Proofs.EncProofs AvraV.Proofs.SymProofs.
+
+(** Letter case: labels, .equ, .set, .def and the special symbols are looked up through the
+    lower-case form of the name only; hence a reference evaluates the same in any letter case.
+    (Preprocessor flags made with .define are matched as written; the hypothesis excludes them.) *)
+Theorem C10_case : forall c n n' f,
+  lower n = lower n' -> get_define c n = None -> get_define c n' = None ->
+  run f c (EIdent n) = run f c (EIdent n') /\ get_def c n = get_def c n'.
+Proof. intros. split; [apply run_case; assumption | apply (lookups_case c n n'); assumption]. Qed.
+Print Assumptions C10_case.
+
+(** No silent default: a name bound nowhere is an error of the evaluation, never a value. *)
+Theorem C10_undefined_fails : forall c n f, get_expr c n = None -> run (S f) c (EIdent n) = Err None.
+Proof. exact unbound_fails. Qed.
+
+(** Labels: defining a label twice (in any letter case - the grammar lower-cases label names) fails
+    at the second definition; a label entered by pass 1 has the position of the item that follows
+    and stays visible for all of pass 1 - pass 2, which evaluates every reference, only starts
+    afterwards, so references may precede the definition. *)
+Theorem C10_duplicate_label : forall t c cur out cp name,
+  lookup name (labels c) <> None -> pass1_item t (c, cur, out) (cp, ILabel name) = Err (Some (fst cp)).
+Proof. exact duplicate_label_fails. Qed.
+Theorem C10_label_value : forall t c cur out cp name c' cur' out',
+  pass1_item t (c, cur, out) (cp, ILabel name) = Ok (c', cur', out') ->
+  lookup name (labels c') = Some (t, cur) /\ cur' = cur.
+Proof. exact label_defined. Qed.
+Theorem C10_labels_persist : forall t its st st' n v,
+  fold_left (fun acc ci => do a <- acc; pass1_item t a ci) its (Ok st) = Ok st' ->
+  lookup n (labels (fst (fst st))) = Some v -> lookup n (labels (fst (fst st'))) = Some v.
+Proof. exact labels_persist. Qed.
+Print Assumptions C10_labels_persist.
+
+(** .set: after an assignment every reference (in any case) sees exactly that value until the next
+    assignment - first definition and re-assignment. *)
+Theorem C10_set_first : forall fuel t c cur out cp name e v,
+  run fuel (ctx_set_pc c cur) e = Ok v -> exist (ctx_set_pc c cur) (lower name) = false ->
+  exists c', pass2_item fuel t (c, cur, out) (cp, ISet name e) = Ok (c', cur, out) /\
+    forall name', lower name' = lower name -> get_set c' name' = Some (EConst v).
+Proof. exact set_latest. Qed.
+Theorem C10_set_again : forall fuel t c cur out cp name e v old,
+  run fuel (ctx_set_pc c cur) e = Ok v -> lookup (lower name) (sets c) = Some old ->
+  exists c', pass2_item fuel t (c, cur, out) (cp, ISet name e) = Ok (c', cur, out) /\
+    forall name', lower name' = lower name -> get_set c' name' = Some (EConst v).
+Proof. exact set_reassign. Qed.
+Print Assumptions C10_set_again.
+
+(** .def / .undef: the alias (any case) resolves to its register from the .def on, and to nothing
+    after .undef; .undef of an unknown alias is an error naming the line; and an instruction that
+    uses the alias is the instruction that uses the register (the encoder sees the same operand). *)
+Theorem C10_def : forall fuel t c cur out cp alias reg r,
+  reg_of_name reg = Some r -> exist (ctx_set_pc c cur) (lower alias) = false ->
+  exists c', pass2_item fuel t (c, cur, out) (cp, IDef alias (EIdent reg)) = Ok (c', cur, out) /\
+    forall a', lower a' = lower alias -> get_def c' a' = Some r.
+Proof. exact def_scope. Qed.
+Theorem C10_undef : forall fuel t c cur out cp alias,
+  match pass2_item fuel t (c, cur, out) (cp, IUndef alias) with
+  | Ok (c', _, _) => forall a', lower a' = lower alias -> get_def c' a' = None
+  | Err l => l = Some (fst cp) /\ lookup (lower alias) (defs c) = None
+  | _ => False
+  end.
+Proof. exact undef_scope. Qed.
+Theorem C10_alias_is_register : forall fuel cx name n,
+  get_def cx name = Some n -> run fuel cx (EIdent name) = Err None ->
+  view_of fuel cx (OE (EIdent name)) = view_of fuel cx (OR8 n).
+Proof. intros. rewrite (view_alias fuel cx name n) by assumption. rewrite view_reg. reflexivity. Qed.
+Print Assumptions C10_alias_is_register.
+
 Definition code_of (src : string) : option (list N) :=
   match build_str 200 (list_ascii_of_string src) with Ok b => Some (b_code b) | _ => None end.
 Definition nl := String (Ascii.ascii_of_N 10) EmptyString.
@@ -9,5 +77,6 @@ Example C10_examples :
   code_of (".set v = 1" ++ nl ++ " .dw v" ++ nl ++ ".set V = v + 1" ++ nl ++ " .dw v" ++ nl) = Some [1; 0; 2; 0]%N /\
   code_of (".def Tmp = r16" ++ nl ++ ".undef TMP" ++ nl ++ " mov tmp, r1" ++ nl) = None /\
   code_of (" .dw fwd" ++ nl ++ "nop" ++ nl ++ "Fwd: nop" ++ nl) = Some [2; 0; 0; 0; 0; 0]%N /\
-  code_of (" .dw nowhere" ++ nl) = None /\ code_of ("a: nop" ++ nl ++ "A: nop" ++ nl) = None.
+  code_of (" .dw nowhere" ++ nl) = None /\ code_of ("a: nop" ++ nl ++ "A: nop" ++ nl) = None /\
+  code_of (".def Tmp = r16" ++ nl ++ " mov TMP, r1" ++ nl) = code_of (" mov r16, r1" ++ nl).
 Proof. vm_compute. repeat split; reflexivity. Qed.
